@@ -223,10 +223,17 @@ Proof.
     { apply (perform_all_agree M s1 s2 (expand M c) (add_info a (crit_info M c)) (add_info b (crit_info M c)) a1 b1 H1 H2
                (add_info_agree a b (crit_info M c) Hag)); [exact Hr|exact Ea|exact Eb]. }
     assert (Hst : r_status a1 = r_status b1) by (destruct Hag1 as [_ [_ [H _]]]; exact H).
-    rewrite <- Hst in Hb.
-    destruct (status_eqb (r_status a1) Optimal) eqn:Es.
+    assert (Hns1 : r_nsolves a1 = r_nsolves b1) by (destruct Hag1 as [_ [_ [_ [_ [H _]]]]]; exact H).
+    assert (Hns0 : r_nsolves a = r_nsolves b) by (destruct Hag as [_ [_ [_ [_ [H _]]]]]; exact H).
+    rewrite <- Hst, <- Hns1, <- Hns0 in Hb.
+    destruct (status_eqb (r_status a1) Optimal || Nat.eqb (r_nsolves a1) (r_nsolves a)) eqn:Es.
     + apply (IH a1 b1 a' b' H1 H2 Hag1); [|exact Ha|exact Hb].
-      right. destruct (r_status a1); try discriminate; reflexivity.
+      apply orb_true_iff in Es as [Es|Es].
+      * right. destruct (r_status a1); try discriminate; reflexivity.
+      * apply Nat.eqb_eq in Es.
+        assert (Hsame : a1 = add_info a (crit_info M c)).
+        { apply (perform_all_nsolves_eq M s1 (expand M c)); [exact Ea|exact Es]. }
+        rewrite Hsame. exact Hr.
     + injection Ha as <-. injection Hb as <-. exact Hag1.
 Qed.
 
